@@ -16,9 +16,13 @@
      limg = lazily read image: current description + PixelData in the file + what highdicom cached in
         self._pixel_array (with the description it was decoded under); lz_one / lz_batch / lz_whole / lstep / lrun_ops
      good_pframes / marked_pframe : frames given as lists of fragment PAYLOADS (bytes); item_of p = (length, starts
-        with FF D8 or FF 4F); reader_enc_bytes = open the file (table choice) + read_frame_raw, returning bytes *)
+        with FF D8 or FF 4F); reader_enc_bytes = open the file (table choice) + read_frame_raw, returning bytes
+     st_frames / lz_frames : get_frames with every transform switched off (in-memory / lazily read image)
+     batch_routes c pd fs ai r : r is what get_stored_frames AND get_frames (transforms off) answer for the request
+        fs on the in-memory image in ANY cache state and on the lazily read image in ANY coherent cache state
+     select d p l : the elements of l at the positions listed in p (any order, repeats allowed) *)
 From Coq Require Import String ZArith List Bool.
-From HD Require Import Base.Val C05_Model C05_Proofs C05_Proofs_Encaps C05_Proofs_State C05_Proofs_Ext C05_Proofs_Lazy.
+From HD Require Import Base.Val C05_Model C05_Proofs C05_Proofs_Encaps C05_Proofs_State C05_Proofs_Ext C05_Proofs_Lazy C05_Proofs_Order.
 Import ListNotations.
 Open Scope Z_scope.
 
@@ -436,3 +440,51 @@ Example C05_example_shape :
   geometry c 1 /\ shape_of c = [2; 1; 3] /\ stored_range (c_fmt c) (-2048) /\ ~ stored_range (c_fmt c) 2048.
 Proof. exact example_shape. Qed.
 Print Assumptions C05_example_shape.
+
+(* ================================================================== *)
+(* extension 2: the ORDER of a batch; get_frames                        *)
+(* ================================================================== *)
+(* a batch answers the request position by position - whatever the order of the numbers, with repeats,
+   of any length - through every route and cache state: entry k of the answer is the frame whose number
+   is entry k of the request (the same `answer` as one frame at a time); the batch is refused with
+   IndexError exactly when some requested number is outside the image, and answered exactly when all are
+   inside.  (A batch that reads the frames in file order and restores the request order wrongly - seeded
+   regression C05-m9 - violates the second clause for every request whose sorting permutation is not an
+   involution.) *)
+Theorem C05_batch_in_request_order : forall c pd fs ai, valid_c c -> enough (c_fmt c) pd -> fs <> [] ->
+  let n := f_frames (c_fmt c) in
+  exists r, batch_routes c pd fs ai r /\
+    (forall out, r = Ok out ->
+       length out = length fs /\
+       forall k, (k < length fs)%nat -> answer c pd (nth k fs 0) ai = Ok (nth k out [])) /\
+    ((exists f, In f fs /\ std_index n f ai = Err "IndexError"%string) <-> r = Err "IndexError"%string) /\
+    ((forall f, In f fs -> exists i, std_index n f ai = Ok i) <-> exists out, r = Ok out).
+Proof. exact batch_in_request_order. Qed.
+Print Assumptions C05_batch_in_request_order.
+
+(* asking for the numbers at positions p of a request (a permutation, a rotation, a selection, with
+   repeats) returns the frames at positions p of its answer *)
+Theorem C05_batch_reorder : forall c pd fs ai p out r r', valid_c c -> enough (c_fmt c) pd ->
+  p <> [] -> (forall k, In k p -> (k < length fs)%nat) ->
+  batch_routes c pd fs ai r -> batch_routes c pd (select 0 p fs) ai r' ->
+  r = Ok out -> r' = Ok (select [] p out).
+Proof. exact batch_reorder. Qed.
+Print Assumptions C05_batch_reorder.
+
+(* get_frames with every transform switched off is get_stored_frames: same answer and same cache
+   afterwards, for every request, in every state, valid image or not.  (With the pre-D108 test - rank of
+   the cached array instead of number_of_frames == 1 - this fails for one colour frame with a warm cache.) *)
+Theorem C05_get_frames_is_get_stored_frames : forall fs ai,
+  (forall st, st_frames st fs ai = st_batch st fs ai) /\ (forall st, lz_frames st fs ai = lz_batch st fs ai).
+Proof. exact frames_is_stored_frames. Qed.
+Print Assumptions C05_get_frames_is_get_stored_frames.
+
+(* three frames 10, 20, 30: the rotated request 2, 3, 1; positions 1, 1, 2, 1 of it (= 3, 3, 1, 3); a
+   request with a number outside the image *)
+Example C05_example_batch_order :
+  valid_c ord_c /\ enough (c_fmt ord_c) ord_pd /\
+  batch_routes ord_c ord_pd [2; 3; 1] false (Ok [[20]; [30]; [10]]) /\
+  batch_routes ord_c ord_pd (select 0 [1%nat; 1%nat; 2%nat; 1%nat] [2; 3; 1]) false (Ok [[30]; [30]; [10]; [30]]) /\
+  batch_routes ord_c ord_pd [2; 4; 1] false (Err "IndexError"%string).
+Proof. exact example_batch_order. Qed.
+Print Assumptions C05_example_batch_order.
